@@ -2,16 +2,17 @@
 from vf.common import task
 
 LEVEL = "proof"
-CLAIMED = False
-NA_REASON = "under construction"
-LEVEL_TEXT = "per-width proof on the real StridedInterval class"
+LEVEL_TEXT = ("Per-width deductive proof on the real StridedInterval class with symbolic fields: joins contain both operands, meets contain every "
+              "common member, eval/min/max/cardinality/solution agree with the member set (stated over all 2^w candidate members).  Input classes "
+              "listed as known findings are excluded by their stated class and the complement is proved.")
+TECHNIQUE = "contract-based deductive verification (pyvc symbolic execution of the real class, VCs by z3)"
 M = "vf.contracts.si"
 JOINS = ["union", "pseudo_join", "least_upper_bound", "widen"]
 MEETS = ["intersection", "_multi_valued_intersection"]
 QUERIES = ["eval1", "eval2", "eval4", "min", "max", "cardinality", "solution"]
 FUNCTIONS = [f"StridedInterval.{n}" for n in JOINS + MEETS + ["eval", "min", "max", "cardinality", "solution", "complement"]]
 TRUSTED = ["z3 4.13", "CPython 3.12", "contract of math.gcd/lcm", "contract of _minimal_common_integer_splitted (checked bounded)"]
-ASSUMPTIONS = ["widths 1-4 (quick 1-3)"]
+ASSUMPTIONS = ["widths 1-4 (quick 1-3); each width complete in values", "non-reversed, initialised, non-empty operands"]
 R = "vf.contracts.si:replay_c22"
 
 
